@@ -232,7 +232,7 @@ func checkC03(w *World, tier string) *Report {
 		"R3.2 a pointer field of a precompile instance that the shared table leaves nil (contextWriter.ctx) is dereferenced only under a dominating non-nil test; " +
 		"R3.3 fork-only code contains no explicit panic and no single-result type assertion; " +
 		"R3.4 bookkeeping is closed on every path: deferred ExitCall (C07 R7.1), depth restored by the clone of Run; " +
-		"R3.5 (forward must-analysis on the SSA CFG, load-numbered field cells) a pointer, interface or map field that some construction in the fork leaves unset, or into which nil is stored (EVMInterpreter.hasher, CallTree.current/root, Call.Parent, StorageKey.changes …), is dereferenced in fork-only code only where every path has tested it non-nil or assigned it a non-nil value with no possible re-assignment in between. R3.6 code identity at every frame construction: the code hash and the code handed to SetCallCode are read from the StateDB for the same address — the JUMPDEST analysis is cached per code hash and shared between frames, so a hash that belongs to other code makes a later JUMP index a bitmap of the wrong length. Memory.Copy's bounds rest on a stated interpreter-contract assumption tied to a who-may-call obligation. Host callbacks, StateDB and the Aspect runtime are outside the analysed program."
+		"R3.5 (forward must-analysis on the SSA CFG, load-numbered field cells) a pointer, interface or map field that some construction in the fork leaves unset, or into which nil is stored (EVMInterpreter.hasher, CallTree.current/root, Call.Parent, StorageKey.changes …), is dereferenced in fork-only code only where every path has tested it non-nil or assigned it a non-nil value with no possible re-assignment in between; the same analysis covers nil *results* (keys …/nilresult#n): the result of a fork function that can return the nil constant or a plain map read (findKey, FindKeyIndices …; a nil announced by an accompanying error is usable on the err == nil side), and a pointer or map read from a map cell (absent key → nil), are dereferenced, or written into as a map, only after a non-nil test, a presence-flag test, or a store of a non-nil value into that very cell (map cells are named by map shape + key shape, `m[a][b]` depends on `m[a]`; delete/clear, a nil store, or a callee that may do either forget all cells). R3.6 code identity at every frame construction: the code hash and the code handed to SetCallCode are read from the StateDB for the same address — the JUMPDEST analysis is cached per code hash and shared between frames, so a hash that belongs to other code makes a later JUMP index a bitmap of the wrong length. Memory.Copy's bounds rest on a stated interpreter-contract assumption tied to a who-may-call obligation. Host callbacks, StateDB and the Aspect runtime are outside the analysed program."
 	targets := w.rangeTargets(pkVM)
 	n := addRangeRule(w, r, "R3.1", targets, func(fn *ssa.Function) bool { return !fnIn("vm.(*bls12381G2MultiExp).Run")(fn) })
 	r.Analysed["bounds_obligations"] = n
@@ -242,7 +242,7 @@ func checkC03(w *World, tier string) *Report {
 	addNoPanicRule(w, r, "R3.3", targets)
 	addR71(w, r, "R3.4")
 	addNilFieldRule(w, r, "R3.5", targets, nil)
-	r.need("R3.5", 8)
+	r.need("R3.5", 20)
 	addCodeIdentityRule(w, r, "R3.6")
 	addNoUnsafeRule(w, r, "R3.7")
 	r.Assumptions = append(r.Assumptions, "initialised host: BlockContext.BlockNumber non-nil, Aspect provider and context callbacks set (stated in the property)", "values handed to EVM.Call/Create by the host fit 256 bits (uint256.MustFromBig)", assumedPre["(*P0.Memory).Copy"].why)
@@ -863,6 +863,8 @@ func checkC14(w *World, tier string) *Report {
 	r.need("R14.5", 2)
 	r.need("R14.6", 3)
 	r.Assumptions = append(r.Assumptions, "the Aspect runtime functions (GetAspectContext, JITSenderAspectByContext, SetAspectContext) pass on exactly their arguments (external)")
+	addPayloadFloorRule(w, r, "R14.9")
+	r.Explanation += " R14.9 a precompile that decodes n dynamic parameters with loadParamBytes refuses, before any decoding call, every input shorter than 64·n bytes: loadParamBytes alone accepts overlapping heads and tails, so a truncated but self-consistent payload would decode."
 	addErrorNotDroppedRule(w, r, "R4.5")
 	r.Explanation += " R4.5 (shared with C04) every error result of a call inside the frame entry points — the error of RunPrecompiledContract in particular — reaches the error the frame returns: a payload the precompile rejects makes the call fail."
 	return r
@@ -1185,6 +1187,10 @@ func checkC19(w *World, tier string) *Report {
 	addLoopVarAddressRule(w, r, "R19.6")
 	addSiblingGuardRule(w, r, "R19.7")
 	addAttachRule(w, r, "R19.10")
+	addAspectFrameRules(w, r, "R19.11", "R19.12")
+	r.need("R19.11", 1)
+	r.need("R19.12", 1)
+	r.Explanation += " R19.11 callTracer.CaptureAspectEnter reads no frame value out of the trace built so far: the frame it appends consists of the event's own arguments (a frame copied from the previous Aspect would carry its calls, error and output). R19.12 (all paths of aspectCallFrame.processOutput) the output is stored unless found empty, the error text unless the error is nil — no other condition drops what the Aspect reported."
 	addExitClosesLastRule(w, r, "R19.8")
 	addNoFrameOverwriteRule(w, r, "R19.9")
 	addFrameScopedMarkerRule(w, r, "R19.5")
@@ -1620,10 +1626,20 @@ func checkC20(w *World, tier string) *Report {
 		if strings.HasSuffix(name, ".Run") && name != "(*EVMInterpreter).Run" && !strings.HasPrefix(name, "(*aspcontext)") && !strings.HasPrefix(name, "(*userOpSender)") && !strings.HasPrefix(name, "(*contextWriter)") {
 			return true
 		}
+		// seventh batch: instructions whose host-side work is bounded by an operand window the instruction itself
+		// enforces (BLOCKHASH: the provider walks the ancestors down to the requested number, so the 256-block window
+		// is what bounds the walk), and the table constructors that bind each instruction to its gas function
+		// (CREATE2 bound to gasCreate hashes the init code without the per-word charge)
+		if name == "opBlockhash" || strings.HasPrefix(name, "new") && strings.HasSuffix(name, "InstructionSet") || strings.HasPrefix(name, "enable") || name == "validate" || name == "copyJumpTable" {
+			return true
+		}
 		return strings.HasSuffix(name, ".RequiredGas") || name == "(*EVMInterpreter).Run" || name == "RunPrecompiledContract" || name == "(*Contract).UseGas" || name == "(*Memory).Resize"
 	})
-	r.need("R20.3", 50)
+	r.need("R20.3", 60)
+	s.cloneRule(r, "R16.6", pkCore, func(name string, pr *PairResult) bool { return name == "GetHashFn" || strings.HasPrefix(name, "GetHashFn$") })
+	r.need("R16.6", 1)
 	addGasMcopyRule(w, r, "R15.2")
+	r.Explanation += " R20.3 also covers opBlockhash (its 256-block window bounds the ancestor walk of the hash provider, core.GetHashFn — R16.6 shared with C16) and the instruction-set constructors (which gas function each instruction is bound to)."
 	r.Explanation += " R20.3 also covers the Run methods of the inherited precompiles (the work done for the price RequiredGas asks); R15.2 (shared with C15) the gas function of MCOPY is memoryCopierGas(2): per-word copy gas on the length operand."
 	return r
 }
